@@ -444,6 +444,7 @@ pub fn dna_count_rows() -> Vec<Vec<u32>> {
         vec![1, 1, 1, 1, 2],                     // wildcard count 2
         vec![0, 0, 0, 0, 2],                     // only the wildcard was seen
         vec![0, 0, 0, 0, 0], // nothing seen: total 0 unless pseudocounts are positive
+        vec![1, 2, 3, 1, 9], // dominated by the wildcard: every symbol is rarer than under a uniform background (all scores negative, distinct)
     ]
 }
 
